@@ -551,9 +551,13 @@ class DictNode(MappingNode, MultiSetNode[KeyValuePairNode]):
             DictNode: The resulting :class:`DictNode`.
 
         """
-        return cls(
-            sorted(cls.make_key_value_pair_node(key, value, allow_key_edits=True) for key, value in source_dict.items())
-        )
+        kvps = [cls.make_key_value_pair_node(key, value, allow_key_edits=True) for key, value in source_dict.items()]
+        try:
+            kvps = sorted(kvps)
+        except TypeError:
+            # keys that cannot be ordered (e.g., the list nodes that tuple keys of a Python dict become): keep the order given
+            pass
+        return cls(kvps)
 
     def edits(self, node: TreeNode) -> Edit:
         if isinstance(node, MultiSetNode):
